@@ -64,6 +64,7 @@ class Rig:
         self.spin_witness = None
         self.last_len = None
         self.header_parses = 0
+        self.fed_total = 0
         Rig.install_monitor()
         Rig.current = self
         self.conn = None
@@ -82,11 +83,14 @@ class Rig:
             if rig is not None and rig.conn is not None and \
                     threading.current_thread() is rig.conn._read_thread:
                 rig.header_parses += 1
-                n = len(rig.conn._read_buffer)
+                # no progress = nothing new taken from the input queue and the buffer as long as before: consecutive
+                # header parses in that condition are rounds of a spin.  (The buffer length alone is not enough: two
+                # header-only messages in a row leave it at 20 twice; a delivery alone is not progress either.)
+                n = (rig.pulled, len(rig.conn._read_buffer))
                 if n == rig.last_len:
                     rig.spin += 1
                     if rig.spin > SPIN_LIMIT and rig.spin_witness is None:
-                        rig.spin_witness = {"buffer_len": n, "head": bytes(rig.conn._read_buffer[:24]).hex(),
+                        rig.spin_witness = {"buffer_len": len(rig.conn._read_buffer), "head": bytes(rig.conn._read_buffer[:24]).hex(),
                                             "consecutive_header_parses": rig.spin}
                         raise SystemExit  # ends the spinning reader thread; the witness is recorded
                 else:
@@ -111,8 +115,23 @@ class Rig:
             self.delivered.append(msg)
 
         c.message_handler = handler
+        # bytes the reader thread has taken from its input queue
+        self.pulled = 0
+        q = c._read_buffer_queue
+        inner_get = q.get
+
+        def counting_get(*a, **k):
+            item = inner_get(*a, **k)
+            try:
+                self.pulled += len(item)
+            except TypeError:
+                pass
+            return item
+
+        q.get = counting_get
         self.conn = c
         self.delivered = []
+        self.fed_total = 0
         self.reset_progress()
 
     def reset_progress(self):
@@ -141,6 +160,7 @@ class Rig:
         c = self.conn
         for ch in chunks:
             self.reset_progress()
+            self.fed_total += len(ch)
             c.add_in_bytes(ch)
             if mode == "step":
                 self.wait()
